@@ -104,6 +104,22 @@ theorem idiv_handlers :
 example : 15 ≤ tryTable.length ∧ EPV.C03Cover.covers ["TypeError"] "InvalidOperation" = false ∧
     EPV.C03Cover.covers ["ArithmeticError"] "DivisionByZero" = true := by decide +kernel
 
+/-- PARTIAL (baseline = `EPV.C03Cover.unguardedBaseline`, reviewed by reading): every `int()/float()/
+Decimal()` conversion, `.encode()/.decode()`/`codecs` call and per-call table look-up of an
+`evaluate…/select…/cast…/nud…/led…` method of the operator, function and token modules that has NO
+enclosing handler in its method is one of the listed sites.  A new unguarded conversion breaks this. -/
+theorem unguarded_sites_baseline :
+    unguardedSites.all (EPV.C03Cover.unguardedBaseline.contains ·) = true := by decide +kernel
+
+/-- hang part, tabulated: every `while` statement of the package (file, function, loop test) is listed in
+`EPV.C03Cover.whileBaseline` with its termination argument — three of them `proved` by theorems of this
+property (`advance_until`, the comment loop, and — in part — `expression`), the others `argued`.  A new
+or edited `while` loop breaks this theorem until its argument is written down. -/
+theorem while_loops_baseline : whileLoops.all EPV.C03Cover.whileListed = true := by decide +kernel
+
+/-- non-vacuity -/
+example : 40 ≤ whileLoops.length ∧ 15 ≤ unguardedSites.length := by decide +kernel
+
 /-! ### (a) the shape of the two `parse` methods and the writers of the cursor -/
 
 /-- the `finally` block of the live `Parser.parse` assigns exactly what `resetCursor` models (same
